@@ -3,7 +3,7 @@
    digits, error on overflow).  Both are compared with the implementation on boundary
    values and random values by the C12 / C10 correspondence. *)
 From PL Require Export Base.Chars.
-Open Scope N_scope.
+Local Open Scope N_scope.
 
 Definition i64_min : Z := (- 2 ^ 63)%Z.
 Definition i64_max : Z := (2 ^ 63 - 1)%Z.
@@ -15,20 +15,31 @@ Fixpoint digits_val (ds : text) (acc : Z) : option Z :=
   | d :: ds' => if is_digit d then digits_val ds' (acc * 10 + Z.of_N (d - 48))%Z else None
   end.
 
-Definition parse_i64 (t : text) : option Z :=
-  let '(neg, ds) := match t with
-                    | c :: r => if c =? c_minus then (true, r)
-                                else if c =? c_plus then (false, r) else (false, t)
-                    | [] => (false, [])
-                    end in
+(* str::parse::<i64>: errors in the order the library reports them, scanning left to right *)
+Inductive perr := PEmpty | PInvalidDigit | PPosOverflow | PNegOverflow.
+
+Fixpoint scan_digits (neg : bool) (ds : text) (acc : Z) : perr + Z :=
   match ds with
-  | [] => None
-  | _ => match digits_val ds 0%Z with
-         | Some v => let v' := if neg then (- v)%Z else v in
-                     if in_i64 v' then Some v' else None
-         | None => None
-         end
+  | [] => inr acc
+  | d :: r =>
+    if is_digit d then
+      let v := Z.of_N (d - 48) in
+      let acc' := if neg then (acc * 10 - v)%Z else (acc * 10 + v)%Z in
+      if in_i64 acc' then scan_digits neg r acc' else inl (if neg then PNegOverflow else PPosOverflow)
+    else inl PInvalidDigit
   end.
+
+Definition parse_i64_full (t : text) : perr + Z :=
+  match t with
+  | [] => inl PEmpty
+  | c :: r =>
+    if c =? c_minus then match r with [] => inl PInvalidDigit | _ => scan_digits true r 0%Z end
+    else if c =? c_plus then match r with [] => inl PInvalidDigit | _ => scan_digits false r 0%Z end
+    else scan_digits false t 0%Z
+  end.
+
+Definition parse_i64 (t : text) : option Z :=
+  match parse_i64_full t with inr z => Some z | inl _ => None end.
 
 Fixpoint show_N_aux (fuel : nat) (n : N) (acc : text) : text :=
   match fuel with
